@@ -91,13 +91,14 @@ where
                 &new_value,
                 zalsa.current_revision(),
             );
-
-            // Diff the new outputs with the old, to discard any no-longer-emitted
-            // outputs and update the tracked struct IDs for seeding the next revision.
-            old_memo
-                .header
-                .diff_outputs(zalsa, database_key_index, &completed_query);
         }
+
+        // Diff the new outputs with the old, to find any no-longer-emitted outputs. They are
+        // discarded only after the new memo has been installed: discarding runs the user's event
+        // callback, and if that panics the old memo (which still names the already-deleted
+        // tracked structs) must not be left behind.
+        let stale_outputs =
+            opt_old_memo.map(|old_memo| old_memo.header.stale_outputs(&completed_query));
 
         #[cfg(not(feature = "persistence"))]
         completed_query.revisions.discard_edges_if_never_change();
@@ -112,6 +113,10 @@ where
             ),
             memo_ingredient_index,
         );
+
+        if let Some(stale_outputs) = stale_outputs {
+            super::diff_outputs::discard_stale_outputs(zalsa, database_key_index, stale_outputs);
+        }
 
         if claim_guard.drop() { None } else { Some(memo) }
     }
